@@ -618,13 +618,13 @@ def opFlow (cfg : Cfg) (s : State) : Op → Except Err (List Prim)
     pure (convertDenom k g (U u) n src dst ++
       (if u = r then [] else [.send (dst.asset g) (U u) E n, .send (dst.asset g) E (U r) n]))
 
-/-- **what an operation says it moves**: the change of the holdings of user `u'` in token group `g'` (base coin, bridge
-denominations and ERC-20 together) that the operation states, read in the pre-state — the sender of a transfer pays
+/-- **what an operation says it moves**: the change of the holdings of account `x` (a user `U u`, a contract, …) in token
+group `g'` (base coin, bridge denominations and ERC-20 together) that the operation states, read in the pre-state — the sender of a transfer pays
 amount + fee, a cancel / refund gives back exactly what the record holds, a fee increase costs the added fee, a
 conversion moves the amount from sender to receiver, building / executing / timing out a batch moves nothing -/
-def stated (s : State) (op : Op) (u' g' : Nat) : Int :=
-  let one (g u n : Nat) : Int := if g = g' ∧ u = u' then (n : Int) else 0
-  let many (u : Nat) (ts : List (Nat × Nat)) : Int := if u = u' then (tokensValue g' ts : Int) else 0
+def stated (s : State) (op : Op) (x : Addr) (g' : Nat) : Int :=
+  let one (g u n : Nat) : Int := if g = g' ∧ U u = x then (n : Int) else 0
+  let many (u : Nat) (ts : List (Nat × Nat)) : Int := if U u = x then (tokensValue g' ts : Int) else 0
   match op with
   | .deposit _ g u n _ => one g u n
   | .send _ g u n fee => - one g u (n + fee)
